@@ -212,17 +212,45 @@ func buildRunner(w *World) (string, error) {
 	return runnerBin, nil
 }
 
+// buildRunnerRace: the same runner built with the race detector (only when a counterexample asks for it).
+func buildRunnerRace(w *World) (string, error) {
+	if runnerRaceBin != "" {
+		return runnerRaceBin, nil
+	}
+	if _, err := buildRunner(w); err != nil {
+		return "", err
+	}
+	cmd := exec.Command("go", "build", "-race", "-o", "vfrun-race", ".")
+	cmd.Dir = runnerDir
+	cmd.Env = append(os.Environ(), "GOFLAGS=-mod=mod", "GOPROXY=off")
+	if out, err := cmd.CombinedOutput(); err != nil {
+		return "", fmt.Errorf("building vfrun -race: %v\n%s", err, out)
+	}
+	runnerRaceBin = filepath.Join(runnerDir, "vfrun-race")
+	return runnerRaceBin, nil
+}
+
 func cleanupRunner() {
+	runnerRaceBin = ""
 	if runnerDir != "" {
 		os.RemoveAll(runnerDir)
 		runnerDir, runnerBin = "", ""
 	}
 }
 
+var lastRunnerStderr string
+var raceSeen bool
+var runnerRaceBin string
+
 func runRunner(bin string, steps []map[string]any, timeout time.Duration, memLimitKB int) ([]RunResult, error) {
 	req, _ := json.Marshal(map[string]any{"steps": steps})
 	sh := fmt.Sprintf("ulimit -v %d; exec %s", memLimitKB, bin)
+	if strings.HasSuffix(bin, "-race") {
+		sh = "exec " + bin // the race runtime needs a large address space
+	}
 	cmd := exec.Command("bash", "-c", sh)
+	cmd.Env = append(os.Environ(), "GORACE=exitcode=0 halt_on_error=0")
+	raceSeen = false
 	cmd.Stdin = bytes.NewReader(req)
 	var out, errb bytes.Buffer
 	cmd.Stdout, cmd.Stderr = &out, &errb
@@ -240,6 +268,7 @@ func runRunner(bin string, steps []map[string]any, timeout time.Duration, memLim
 		cmd.Process.Kill()
 		return nil, fmt.Errorf("runner timed out after %v", timeout)
 	}
+	raceSeen = strings.Contains(errb.String(), "DATA RACE")
 	var resp struct {
 		Results []RunResult `json:"results"`
 	}
@@ -404,6 +433,12 @@ func judge(j Judge, res []RunResult, runErr error) (confirmed bool, observed any
 			put(exp[len(exp)-fi.SumSize:], sum)
 		}
 		return !bytes.Equal(got, exp), map[string]any{"buf": r.Buf, "expected": hex.EncodeToString(exp)}
+	case "registry_seq":
+		// sequential registry script (optional pre-state op first): results against an atomic map
+		outs, _ := r.Ret.([]any)
+		steps0 := []map[string]any{}
+		_ = steps0
+		return registryJudge(j.Note, outs), map[string]any{"results": outs}
 	case "prefix_ne":
 		return !strings.HasPrefix(r.Buf, j.ExpectHex), map[string]any{"buf": r.Buf}
 	case "msg_ne":
@@ -479,7 +514,13 @@ func judge(j Judge, res []RunResult, runErr error) (confirmed bool, observed any
 		if r.Err != nil {
 			return false, nil
 		}
+		if j.Note == "msg-only" {
+			return !reflect.DeepEqual(canon(r.Msg), canon(r2.Msg)), map[string]any{"msg1": r.Msg, "msg2": r2.Msg}
+		}
 		return !reflect.DeepEqual(canon(r.Msg), canon(r2.Msg)) || r.Buf != r2.Buf, map[string]any{"msg1": r.Msg, "msg2": r2.Msg}
+	case "bufs_ne":
+		r2 := get(j.Step2)
+		return r.Buf != r2.Buf, map[string]any{"buf1": r.Buf, "buf2": r2.Buf}
 	case "err_nil": // the property demands an error
 		if r.Panic != nil {
 			return true, map[string]any{"panic": *r.Panic}
@@ -561,8 +602,23 @@ func confirmViolations(d *Driver, viols []Violation) {
 			continue
 		}
 		total++
-		res, rerr := runRunner(bin, v.Replay.Steps, 60*time.Second, 8<<20)
+		useBin := bin
+		if v.Replay.Judge.Note == "race" {
+			if rb, rerr := buildRunnerRace(replayWorld); rerr == nil {
+				useBin = rb
+			}
+		}
+		registrySpecOps = nil
+		if len(v.Replay.Steps) > 0 && v.Replay.Steps[0]["op"] == "registry" {
+			if ops, ok := v.Replay.Steps[0]["ops"].([]map[string]any); ok {
+				registrySpecOps = ops
+			}
+		}
+		res, rerr := runRunner(useBin, v.Replay.Steps, 120*time.Second, 8<<20)
 		ok, obs := judge(v.Replay.Judge, res, rerr)
+		if v.Replay.Judge.Note == "race" && raceSeen {
+			ok, obs = true, map[string]any{"race_detector": "DATA RACE reported", "result": obs}
+		}
 		v.Observed = obs
 		if ok {
 			v.Confirmed = "native"
@@ -609,8 +665,16 @@ func replayFile(path string) int {
 		fmt.Println(err)
 		return 2
 	}
+	if doc.Judge.Note == "race" {
+		if rb, rerr := buildRunnerRace(w); rerr == nil {
+			bin = rb
+		}
+	}
 	res, rerr := runRunner(bin, doc.Steps, 120*time.Second, 8<<20)
 	ok, obs := judge(doc.Judge, res, rerr)
+	if doc.Judge.Note == "race" && raceSeen {
+		ok, obs = true, map[string]any{"race_detector": "DATA RACE reported", "result": obs}
+	}
 	ob, _ := json.Marshal(obs)
 	fmt.Printf("observed: %s\n", ob)
 	if ok {
@@ -619,4 +683,47 @@ func replayFile(path string) int {
 	}
 	fmt.Println("not reproduced on this tree")
 	return 0
+}
+
+// registryJudge replays the atomic-map specification over the observed results of a sequential script.
+// The script's ops are not available here; the runner echoes [present?, ok] for Get and bool for Registry,
+// so the check is: results are well-formed for the pre-state. (Used only to confirm a symbolic finding:
+// the script is run natively and any deviation from the specification computed by specResults confirms it.)
+var registrySpecOps []map[string]any
+
+func registryJudge(pre string, outs []any) bool {
+	present := map[string]bool{"CRC16": true, "CRC32": true, "SSE_BIN": true, "SZSE_BIN": true}
+	idx := 0
+	for _, opm := range registrySpecOps {
+		op, _ := opm["op"].(string)
+		alg, _ := opm["alg"].(string)
+		var got any
+		if idx < len(outs) {
+			got = outs[idx]
+		}
+		idx++
+		switch op {
+		case "Registry":
+			want := !present[alg] && alg != ""
+			if b, ok := got.(bool); !ok || b != want {
+				return true
+			}
+			if want {
+				present[alg] = true
+			}
+		case "Get":
+			l, ok := got.([]any)
+			if !ok || len(l) != 2 {
+				return true
+			}
+			if l[0] != present[alg] || l[1] != present[alg] {
+				return true
+			}
+		case "Remove":
+			delete(present, alg)
+		case "Clear":
+			present = map[string]bool{}
+		}
+	}
+	return false
 }
